@@ -15,7 +15,7 @@ WRAP = ("-Wl,--wrap=malloc", "-Wl,--wrap=realloc", "-Wl,--wrap=free")
 
 def workloads(rng, thorough):
     w = [["iter_fwd", 1000000, 40], ["iter_bwd", 1000000, 40], ["iter_mixed", 5000, 60], ["iter_fwd", 10 ** 13, 6], ["iter_bwd", 10 ** 10, 5],
-         ["c_iter_fwd", 1000000, 30], ["c_iter_bwd", 1000000, 30],
+         ["c_iter_fwd", 1000000, 30], ["c_iter_bwd", 1000000, 30], ["c_skipto_fwd", 1000000, 30], ["c_skipto_bwd", 1000000, 30],
          ["count", 1000000, 3000000, 1], ["count", 10 ** 14, 10 ** 14 + 3000000, 1], ["count", 0, 30000000, 4], ["c_count", 100, 2000000, 1],
          ["nth", 20000, 100, 1], ["nth", 2000000, 0, 4], ["gen", 100, 30000], ["gen_n", 3000, 10 ** 9], ["c_gen", 5, 40000]]
     if thorough:
@@ -114,9 +114,9 @@ def correspond(ctx):
                     if p is None or int(v) != p:
                         bad = "call %d returned %s where the cursor specification (faulted calls skipped) requires %s" % (idx, v, p); break
                     lo, hi1 = (p + 1, p) if p else (1, 0)
-        elif w[0].startswith("c_iter_"):
-            got = vals
-            if "E?" in got or "notE" in got:
+        elif w[0].startswith(("c_iter_", "c_skipto_")):
+            got = [v for v in vals if v != "skipto-err"]      # primesieve_skipto itself failed: error state, errno = EDOM
+            if "E?" in got or "notE" in got or "skipto-err?" in got:
                 bad = "C iterator error contract violated (%s)" % got[-8:]
             else:
                 j = got.index("E") if "E" in got else len(got)
